@@ -270,8 +270,8 @@ PHRASES = {100: 'Continue', 101: 'Switching Protocols', 200: 'OK', 201: 'Created
            305: 'Use Proxy', 307: 'Temporary Redirect', 400: 'Bad Request', 401: 'Unauthorized', 403: 'Forbidden',
            404: 'Not Found', 405: 'Method Not Allowed', 406: 'Not Acceptable', 407: 'Proxy Authentication Required',
            408: 'Request Timeout', 409: 'Conflict', 410: 'Gone', 411: 'Length Required', 412: 'Precondition Failed',
-           413: 'Request Entity Too Large', 414: 'Request-URI Too Long', 415: 'Unsupported Media Type',
-           416: 'Requested Range Not Satisfiable', 417: 'Expectation Failed', 500: 'Internal Server Error',
+           413: 'Payload Too Large', 414: 'URI Too Long', 415: 'Unsupported Media Type',
+           416: 'Range Not Satisfiable', 417: 'Expectation Failed', 500: 'Internal Server Error',
            501: 'Not Implemented', 502: 'Bad Gateway', 503: 'Service Unavailable', 504: 'Gateway Timeout',
            505: 'HTTP Version Not Supported'}
 
